@@ -284,6 +284,31 @@ def oracle(p):
                 fail("C01:anchor:origin-formula", "origin is not center - R diag(s) (n-1)/2", grid=gd, got=g.origin().tolist(), want=o.tolist())
         except Exception as e:  # noqa
             fail("C01:anchor:raises", f"raises {type(e).__name__}: {str(e)[:120]}", grid=gd)
+        # the same anchors for grids CONSTRUCTED from an origin, and the pair (grid, cropped sub-grid): the sub-grid's
+        # index i is the base grid's index i + margin (same world lattice)
+        counts["origin_route"] = counts.get("origin_route", 0) + 1
+        try:
+            o_in = [rng.randint(-300, 300) / 8 for _ in range(D)]
+            go = Grid(size=gd["size"], origin=o_in, spacing=gd["spacing"], direction=[v for r in gd["direction"] for v in r],
+                      align_corners=gd["align_corners"])
+            o_t = torch.tensor(o_in, dtype=torch.float64)
+            sco = float(o_t.abs().max()) + float((go.spacing() * torch.tensor(gd["size"])).max()) + 1
+            w0 = go.index_to_world(torch.zeros(D, dtype=torch.float64), decimals=None).double()
+            if not bool(torch.all((w0 - o_t).abs() <= 3e-5 * sco)) or not bool(torch.all((go.origin().double() - o_t).abs() <= 3e-5 * sco)):
+                fail("C01:anchor:origin-route", "Grid(origin=o): index 0 is not at o (or origin() != o)", grid=dict(gd, origin=o_in),
+                     got=w0.tolist(), origin=go.origin().tolist())
+            if all(n >= 5 for n in gd["size"]):
+                m = [rng.randint(0, 2) for _ in range(D)]
+                sub = go.crop(*[v for k in m for v in (k, k)]) if False else go.narrow(0, m[0], gd["size"][0] - 2 * m[0])
+                i_sub = torch.tensor([[rng.uniform(0, 3) for _ in range(D)] for _ in range(3)], dtype=torch.float64)
+                i_base = sub.transform_points(i_sub, Axes.GRID, Axes.GRID, to_grid=go, decimals=None)
+                want = i_sub.clone()
+                want[:, 0] += m[0]
+                if not bool(torch.all((i_base - want).abs() <= 2e-4 * (1 + sco / float(go.spacing().min())) / 10)):
+                    fail("C01:two:narrowed-subgrid", "sub-grid index i is not base index i + offset (sub-grid left the base grid's world lattice)",
+                         grid=dict(gd, origin=o_in), offset=m[0], got=i_base.tolist(), want=want.tolist())
+        except Exception as e:  # noqa
+            fail("C01:anchor:origin-route:raises", f"raises {type(e).__name__}: {str(e)[:120]}", grid=gd)
         # reported coordinates = maps applied to the integer indices; count; range; sampling identity
         counts["coords"] += 1
         try:
@@ -333,6 +358,34 @@ def oracle(p):
                 fail("C01:cube:vs_grid", "grid.cube() maps differ from the grid's own cube maps", grid=gd)
         except Exception as e:  # noqa
             fail("C01:cube:raises", f"raises {type(e).__name__}: {str(e)[:120]}", grid=gd)
+        # convenience helpers with the align_corners keyword in every form (None = grid's flag, True, False)
+        counts["helpers"] = counts.get("helpers", 0) + 1
+        try:
+            xh = torch.tensor([[rng.uniform(-1.5, 1.5) for _ in range(D)] for _ in range(4)], dtype=torch.float64)
+            for ac in (None, True, False):
+                cax = Axes.from_align_corners(g.align_corners() if ac is None else ac)
+                kw = {} if ac is None else {"align_corners": ac}
+                tag = "default" if ac is None else ("ac" if ac else "nac")
+                w_ref = g.transform_points(xh, cax, Axes.WORLD, decimals=None)
+                i_ref = g.transform_points(xh, cax, Axes.GRID, decimals=None)
+                scw = float(w_ref.abs().max()) + 1
+                sci = float(i_ref.abs().max()) + 1
+                for nm, got, want, s_ in (
+                    ("cube_to_world", g.cube_to_world(xh, decimals=None, **kw), w_ref, scw),
+                    ("cube_to_index", g.cube_to_index(xh, decimals=None, **kw), i_ref, sci),
+                    ("world_to_cube", g.world_to_cube(w_ref, decimals=None, **kw), xh, 2.5),
+                    ("index_to_cube", g.index_to_cube(i_ref, decimals=None, **kw), xh, 2.5),
+                ):
+                    if not bool(torch.all((got.double() - want.double()).abs() <= 1e-4 * s_)):
+                        fail(f"C01:helper:{nm}:{tag}:grid-flag-{g.align_corners()}",
+                             f"Grid.{nm}(align_corners={ac}) differs from transform_points with axes {cax.name}", grid=gd,
+                             x=xh.tolist(), got=got.tolist(), want=want.tolist())
+            wi = g.transform_points(xh * 7, Axes.GRID, Axes.WORLD, decimals=None)
+            if not close(g.index_to_world(xh * 7, decimals=None), wi, 1e-9) or \
+                    not bool(torch.all((g.world_to_index(wi, decimals=None).double() - xh * 7).abs() <= 1e-3)):
+                fail("C01:helper:index_world", "index_to_world / world_to_index differ from transform_points or are not inverse", grid=gd)
+        except Exception as e:  # noqa
+            fail("C01:helper:raises", f"raises {type(e).__name__}: {str(e)[:120]}", grid=gd)
         # functional API
         try:
             x = rand_points(rng, g, Axes.CUBE, (3,), torch.float64)
